@@ -276,6 +276,51 @@ INFO6 = {
  "C20-12": ("parseLeaseSetComponents fills a named result and bare-returns on errors: the half-filled LeaseSet escapes", "legacy LeaseSet cut between the destination and the end of the signing key, then Bytes() / Verify()"),
 }
 MISSED_FIRST_6 = ["C01-12", "C15-12", "C16-11", "C16-12", "C04-11", "C13-11", "C09-11", "C14-11", "C18-11", "C02-11", "C10-11", "C10-12"]
+
+# round 7 (same brief as round 6 with twelve earlier changes listed; exported functions not touched before); patch k kept as <ID>-<k+12>
+INFO7 = {
+ "C01-13": ("parseLease2Array checks the bounds with LEASE2_SIZE but copies each lease from data[i*LEASE_SIZE:] (44)", "LeaseSet2 with >= 2 leases that are not byte-identical"),
+ "C01-14": ("MetaLeaseSet.Bytes() writes offlineSignature.Signature() (signature bytes only) instead of Bytes()", "MetaLeaseSet with the offline-keys flag"),
+ "C02-13": ("reserved-flags mask of LeaseSet2 derived from OFFLINE_KEYS and UNPUBLISHED only (0xFFFC)", "NewLeaseSet2 / Validate with the BLINDED flag"),
+ "C02-14": ("legacy LeaseSet: signing-key size fallback for non-KEY certificates is 40 (the signature size) instead of 128", "legacy LeaseSet whose destination has a NULL certificate"),
+ "C03-13": ("ReadI2PString keeps the length as a byte: length + 1 wraps at 255 (accepted, 0 bytes consumed)", "I2PString with length prefix 0xff"),
+ "C03-14": ("LeaseSet2 lease count clamped to 16; the surplus lease bytes are never skipped", "count byte 17..255 with that many leases present"),
+ "C04-13": ("certificate type helpers read through cert.Data() while the guard still checks the raw payload", "KEY certificate with declared length 0..3 and trailing bytes, then GetSignatureTypeFromCertificate / GetCryptoTypeFromCertificate"),
+ "C04-14": ("RouterInfo skips peer hashes with a bounds check in the wrong unit (peers vs peers*32)", "peer_size N >= 1 with between N and 32N-1 bytes following"),
+ "C05-13": ("parseTransportOptions looks at errs[0] only; the benign trailing-data warning always comes first inside a RouterInfo", "junk inside an address's options mapping (size bumped) of a signed RouterInfo"),
+ "C05-14": ("validateAndConsumeDelimiter uses bytes.TrimLeft: a run of '=' or ';' is consumed as one delimiter", "extra delimiter bytes after an existing delimiter, mapping size bumped"),
+ "C06-13": ("LeaseSet2 reader: key count check numKeys < 16 instead of <=", "LeaseSet2 with exactly 16 encryption keys"),
+ "C06-14": ("CreateOfflineSignature hashes the message for Ed25519ph; verifyEd25519ph does not", "CreateOfflineSignature with destination type 8"),
+ "C07-13": ("Base32Address hashes Hash() again: base32(SHA-256(SHA-256(bytes)))", "any Destination"),
+ "C07-14": ("KeysAndCert.Validate: a NULL certificate must carry no payload; parsers still accept one", "identity whose NULL certificate declares a payload: cannot be serialised or hashed"),
+ "C08-13": ("calculateRemainder returns certificate.ExcessBytes(): the remainder is the certificate's private copy", "overwriting through the returned remainder slice changes the certificate's excess bytes"),
+ "C08-14": ("EncryptedLeaseSet blinded key: set to data[:keySize], replaced by a copy only when ConstructSigningPublicKeyByType succeeds", "sig types 3..6 (P-521, RSA)"),
+ "C09-13": ("BLINDED-flag check reads the type with PublicKeyType() (crypto) instead of SigningPublicKeyType()", "any LeaseSet2 with flag bit 2"),
+ "C09-14": ("legacy LeaseSet: the destination's CryptoSize() must equal 256", "legacy LeaseSet of a destination declaring X25519"),
+ "C10-13": ("KeyCertificate size accessors go through GetKeySizes(spk, cpk): a per-code answer depends on the other code", "certificate with one known and one unknown code"),
+ "C10-14": ("constructECDSAP256Key always copies data[:64] (padded-field branch removed)", "ConstructSigningPublicKey / ByType with the 128-byte field for signing type 1"),
+ "C11-13": ("handleInsufficientData returns early for an empty remainder, before the error is appended", "two-byte input with a non-zero size field"),
+ "C11-14": ("parse-side size check mapping_len >= 65535", "maximal mapping of exactly 65,535 payload bytes"),
+ "C12-13": ("merged range validation drops the explicit negative check; at width 8 the maximum is MaxUint64", "negative value with size 8"),
+ "C12-14": ("DateFromTime loop for i := DATE_SIZE-1; i > 0: the most significant byte is never written", "millisecond values >= 2^56"),
+ "C13-13": ("base64.DecodeStringSafe trims with strings.TrimSpace before decoding", "leading / trailing whitespace other than CR / LF (also: line-break-only input counts as empty)"),
+ "C13-14": ("DecodeStringSafeNoPadding strips a '.b32.i2p' suffix with strings.TrimRight (a character set)", "unpadded text ending in one of b 3 2 i p ."),
+ "C14-13": ("NewOfflineSignature reuses the parser's lower-bound length helpers", "transient key or signature longer than its type requires"),
+ "C14-14": ("KeyLen compared with uint16(len(KeyData))", "KeyData longer than KeyLen by a multiple of 65,536"),
+ "C15-13": ("NewLease shares the Lease2 range check (2^32-1 s)", "NewLease with an expiration at or after 2106-02-07"),
+ "C15-14": ("LeaseSet2.IsExpired also returns true when every lease has ended", "header expiry ahead, all lease end dates in the past"),
+ "C16-13": ("EncryptInnerLeaseSet2 size check bounded by MaxInt16", "LeaseSet2 longer than 32,707 bytes"),
+ "C16-14": ("deriveBlindedPublicKey substitutes time.Now() when date.IsZero()", "the instant 0001-01-01T00:00:00Z"),
+ "C17-13": ("extractOptionBytes trims whitespace before Host() / Port() parse; the helpers see the raw value", "IP literal or port with leading / trailing whitespace"),
+ "C17-14": ("validatePortValue returns the option string instead of strconv.Itoa(val)", "valid port spelled non-canonically (0080, +443)"),
+ "C18-13": ("sync.Mutex added to RouterInfo and taken by readers; value-receiver methods copy the struct, mutex included", ">= 2 read-only goroutines on one RouterInfo"),
+ "C18-14": ("MetaLeaseSet.Verify writes the transient key into the shared KeysAndCert of its own destination", "MetaLeaseSet with an offline signature: first Verify() mutates the receiver"),
+ "C19-13": ("CertificateBuilder.WithType clears payload and payloadSet on a type change", "WithPayload(p) then WithType(t) on a fresh builder"),
+ "C19-14": ("ReadDestinationFromLeaseSet length guard < became <=", "buffer ending exactly at the end of the destination"),
+ "C20-13": ("KeysAndCert.PublicKey() / SigningPublicKey() lose the KeyCertificate nil check", "fixed-size readers on an encoding cut to 387..390 bytes, then the accessors"),
+ "C20-14": ("KeyCertificate type accessors decode with binary.BigEndian.Uint16(field)", "zero value KeyCertificate{}"),
+}
+MISSED_FIRST_7 = ["C16-13", "C16-14", "C04-13", "C05-13", "C05-14", "C06-14", "C10-13", "C10-14", "C03-14", "C14-14", "C08-13", "C08-14"]
 MISSED_FIRST_2 = ["C05-4", "C06-3", "C07-4", "C09-3", "C10-4", "C15-3", "C17-3", "C18-4", "C19-3", "C19-4"]
 
 
@@ -298,6 +343,7 @@ def main():
     allinfo.update(INFO4)
     allinfo.update(INFO5)
     allinfo.update(INFO6)
+    allinfo.update(INFO7)
     for key in sorted(allinfo):
         pid, k = key.split("-")
         round2 = key in INFO2
@@ -305,6 +351,7 @@ def main():
         round4 = key in INFO4
         round5 = key in INFO5
         round6 = key in INFO6
+        round7 = key in INFO7
         if round2:
             k = str(int(k) - 2)
         if round3:
@@ -315,7 +362,9 @@ def main():
             k = str(int(k) - 8)
         if round6:
             k = str(int(k) - 10)
-        src = os.path.join(SRC, ("R6" if round6 else "R5" if round5 else "R4" if round4 else "R3" if round3 else "R2" if round2 else "") + pid + "-out")
+        if round7:
+            k = str(int(k) - 12)
+        src = os.path.join(SRC, ("R7" if round7 else "R6" if round6 else "R5" if round5 else "R4" if round4 else "R3" if round3 else "R2" if round2 else "") + pid + "-out")
         conf = os.path.join(src, "confirm%s.json" % k)
         if not os.path.exists(conf):
             continue
@@ -333,7 +382,7 @@ def main():
         if os.path.exists(os.path.join(src, "notes.md")):
             shutil.copy(os.path.join(src, "notes.md"), os.path.join(dst, "notes.md"))
         caught, missed, detail = [], [], {}
-        rp = os.path.join(SRC, "results6" if round6 else "results5" if round5 else "results4" if round4 else "results3" if round3 else "results2" if round2 else "results", "%s-%s.json" % (pid, k))
+        rp = os.path.join(SRC, "results7" if round7 else "results6" if round6 else "results5" if round5 else "results4" if round4 else "results3" if round3 else "results2" if round2 else "results", "%s-%s.json" % (pid, k))
         if os.path.exists(rp):
             try:
                 r = json.load(open(rp))
@@ -360,9 +409,9 @@ def main():
                 how="seedtool.py confirm: patch applied in a scratch worktree of /repo, `go build ./...`, full existing suite (`go test -vet=off -count=1 ./...`), demo with the patch, patch reverted, demo again" + (" (demo under -race)" if pid == "C18" else ""),
                 suite_passes_with_patch=c.get("suite_rc") == 0, demo_fails_with_patch=c.get("demo_rc_with") != 0, demo_passes_without_patch=c.get("demo_rc_without") == 0,
                 demo_dir=c.get("demo_dir")),
-            checks_run=("quick tier of the target check (and of the neighbouring checks listed) against a scratch worktree with the patch applied (seedtool.py run, VERIF_REPO)" if (round2 or round3 or round4 or round5 or round6) else "quick tier of every check against a scratch worktree with the patch applied (seedtool.py run, VERIF_REPO)"),
-            missed_at_first=(key in MISSED_FIRST_2) if round2 else (key in missed3) if round3 else (key in MISSED_FIRST_4) if round4 else (key in MISSED_FIRST_5) if round5 else (key in MISSED_FIRST_6) if round6 else None,
-            round=6 if round6 else 5 if round5 else 4 if round4 else 3 if round3 else 2 if round2 else 1,
+            checks_run=("quick tier of the target check (and of the neighbouring checks listed) against a scratch worktree with the patch applied (seedtool.py run, VERIF_REPO)" if (round2 or round3 or round4 or round5 or round6 or round7) else "quick tier of every check against a scratch worktree with the patch applied (seedtool.py run, VERIF_REPO)"),
+            missed_at_first=(key in MISSED_FIRST_2) if round2 else (key in missed3) if round3 else (key in MISSED_FIRST_4) if round4 else (key in MISSED_FIRST_5) if round5 else (key in MISSED_FIRST_6) if round6 else (key in MISSED_FIRST_7) if round7 else None,
+            round=7 if round7 else 6 if round6 else 5 if round5 else 4 if round4 else 3 if round3 else 2 if round2 else 1,
             caught_by=sorted(caught), first_report=detail.get(pid) or (detail[sorted(detail)[0]] if detail else ""),
             not_reporting=sorted(missed))
         json.dump(meta, open(os.path.join(dst, "meta.json"), "w"), indent=1)
